@@ -14,11 +14,11 @@ import re, os, hashlib
 SR = "src/serialize.rs"
 KEYWORDS = {"end", "from", "at", "in", "then", "do", "fun", "where", "with", "open", "show", "have", "by", "local", "prefix", "instance", "self"}
 SCALAR = ("u64", "usize", "u8", "int")          # all `Nat` in Lean
-PREFIX = {"u64": "u64", "usize": "usize", "u8": "u8", "bool": "bool", "f64": "f64", "Modulus": "modulus", "SchemeType": "scheme",
+PREFIX = {"SecretKey": "sk", "u64": "u64", "usize": "usize", "u8": "u8", "bool": "bool", "f64": "f64", "Modulus": "modulus", "SchemeType": "scheme",
           "ParmsID": "pid", "EncryptionParameters": "params", "Plaintext": "plain"}
 LEAN_TY = {"u64": "Nat", "usize": "Nat", "u8": "Nat", "int": "Nat", "bool": "Bool", "f64": "Nat", "Modulus": "Nat", "SchemeType": "Nat",
            "ParmsID": "List Nat", "EncryptionParameters": "Params", "Plaintext": "Plain", "I": "α", "unit": "Unit", "bytes": "Bytes",
-           "Level": "Level", "CtV": "CtV", "Ciphertext": "CtV", "CdParms": "Level", "HeContext": "Ctx", "PublicKey": "CtV", "KSwitchKeys": "KSwitch CtV", "RelinKeys": "KSwitch CtV", "GaloisKeys": "KSwitch CtV"}
+           "Level": "Level", "CtV": "CtV", "Ciphertext": "CtV", "CdParms": "Level", "HeContext": "Ctx", "CtFlat": "CtFlat", "SecretKey": "Plain", "PublicKey": "CtV", "KSwitchKeys": "KSwitch CtV", "RelinKeys": "KSwitch CtV", "GaloisKeys": "KSwitch CtV"}
 # context-dependent serializers (`x.serialize(context, stream)`): static type -> generated function
 CTX_PREFIX = {"Ciphertext": "ct", "PublicKey": "pk", "KSwitchKeys": "kswitch", "RelinKeys": "relin", "GaloisKeys": "galois"}
 # functions translated elsewhere (Gen/WordFns.lean, partial: `R`): name -> (Lean name, result type)
@@ -44,6 +44,7 @@ ACCESSORS = {
     ("CdParms", "scheme", 0): ("SchemeType", "{0}.scheme"),
     ("CdParms", "coeff_modulus", 0): (("vec", "Modulus"), "{0}.moduli"),
     ("CdParms", "poly_modulus_degree", 0): ("usize", "{0}.n"),
+    ("SecretKey", "as_plaintext", 0): ("Plaintext", "{0}"),                # a SecretKey is represented by its plaintext (`SecretKey::new(p)` = p)
     ("PublicKey", "as_ciphertext", 0): ("Ciphertext", "{0}"),             # a PublicKey is represented by (the view of) its ciphertext
     ("KSwitchKeys", "parms_id", 0): ("ParmsID", "{0}.pid"),               # `Codec.KSwitch CtV`
     ("KSwitchKeys", "keys", 0): (("vec", ("vec", "PublicKey")), "{0}.keys"),
@@ -70,6 +71,7 @@ STATICS = {
     ("u64", "from_le_bytes", 1): ("u64", "(leVal {1})", None),
     ("usize", "from_le_bytes", 1): ("usize", "(leVal {1})", None),
     ("EncryptionParameters", "new", 1): ("EncryptionParameters", "(Params.mk {1} 0 [] 0 false)", None),
+    ("SecretKey", "new", 1): ("SecretKey", "{1}", None),
     ("Plaintext", "new", 0): ("Plaintext", "(Plain.mk [0, 0, 0, 0] [] oneF64)", None),
 }
 # builder / mutator methods: (type, method) -> (Lean template of the new object, guard template or None); {0} receiver, {1} argument
@@ -228,13 +230,15 @@ class Lower:
     def ctx_binders(self):
         b = []
         if self.mode == "W": b.append("{S E : Type} (st : WStream S E)")
+        if self.ent.get("expand"): b.append("(expand : List Nat → Level → List Nat)")
         if self.generic:
             b.insert(0, "{α : Type}")
-            b.append({"W": "(item' : α → W S E Nat)", "R": "(item' : Rd α)", "T": "(item' : α → Nat)", "P": "(item' : α → Nat)"}[self.mode])
+            b.append({"W": "(item' : α → W S E Nat)", "R": "(item' : Rd α)", "T": "(item' : α → Nat)", "P": "(item' : α → R Nat)"}[self.mode])
         return " ".join(b)
     def ctx_args(self):
         a = []
         if self.mode == "W": a.append("st")
+        if self.ent.get("expand"): a.append("expand")
         if self.generic: a.append("item'")
         return " ".join(a)
 
@@ -278,6 +282,17 @@ class Lower:
         if kind == "serialized_size" and self.gen.done.get(target, self.mode) not in ("T",): self.fail(f"{target} is not total")
         return f"{target} {st}".strip()
 
+    def csize_fn(self, t, cx):
+        """the generated context-dependent `serialized_size` (partial: `R Nat`) for static type t"""
+        if isinstance(t, tuple) and t[0] == "vec": return f"cvec_serialized_size {wrap(self.csize_fn(t[1], cx))}"
+        if t == "I":
+            if not self.generic: self.fail("generic item outside a generic impl")
+            return "item'"
+        if t not in CTX_PREFIX: self.fail(f"`serialized_size(context)` on type {t}")
+        target = f"{CTX_PREFIX[t]}_serialized_size"
+        if target not in self.gen.done: self.fail(f"{target} is used before it is generated")
+        return f"{target} {cx}"
+
     def cser_fn(self, t, cx):
         """the generated context-dependent `serialize` for static type t"""
         if isinstance(t, tuple) and t[0] == "vec": return f"cvec_serialize st {wrap(self.cser_fn(t[1], cx))}"
@@ -294,6 +309,12 @@ class Lower:
         T = self.T; tag = e[0]
         if tag == "num": return k(str(e[1]), e[2] or "int")
         if tag == "bool": return k("true" if e[1] else "false", "bool")
+        if tag == "float":
+            if e[1] != "1.0": self.fail(f"float literal {e[1]}")
+            return k("oneF64", "f64")                      # the IEEE bit pattern of 1.0 (Model/Codec.lean)
+        if tag == "vecrep":
+            if not (e[1][0] == "num" and e[1][1] == 0 and e[1][2] == "u64"): self.fail("vec![x; n] with x other than 0u64")
+            return self.ce(e[2], env, lambda c, t: k(f"(List.replicate {c} 0)", ("vec", "u64")))
         if tag == "paren": return self.ce(e[1], env, lambda c, t: k(c if re.fullmatch(r"[\w.]+", c) else "(" + c + ")", t))
         if tag == "path":
             segs = e[1]
@@ -302,6 +323,7 @@ class Lower:
                 if segs[0] not in env: self.fail(f"unknown name `{segs[0]}`")
                 return k(*env[segs[0]])
             if segs[-2] == "SchemeType" and segs[-1] in self.gen.scheme: return k(str(self.gen.scheme[segs[-1]]), "SchemeType")
+            if segs[-1] == "CIPHERTEXT_SEED_FLAG" and segs[-2] == "text": return k(str(self.gen.seed_flag), "u64")
             self.fail(f"path {'::'.join(segs)}")
         if tag in ("deref", "ref"): return self.ce(e[-1], env, k)
         if tag == "cast":
@@ -352,9 +374,9 @@ class Lower:
                 def kj(ci, ti):
                     if isinstance(tb, tuple) and tb[0] in ("arr", "bytes") and e[2][0] == "num" and e[2][1] < tb[2]:
                         return k(f"({cb}.getD {ci} 0)", tb[1] if tb[0] == "arr" else "u8")
-                    if isinstance(tb, tuple) and tb[0] in ("vec", "arr") and self.mode in ("P", "W") and self.is_nat(tb[1]):
+                    if isinstance(tb, tuple) and tb[0] in ("vec", "arr") and self.mode in ("P", "W", "R") and self.is_nat(tb[1]):
                         v = self.fresh()
-                        return self.bind(f"pidx {cb} {ci}" if self.mode == "P" else f"wlift (pidx {cb} {ci})", v, k(v, tb[1]))
+                        return self.bind(f"pidx {cb} {ci}" if self.mode == "P" else f"{self.m}lift (pidx {cb} {ci})", v, k(v, tb[1]))
                     self.fail(f"indexing a value of type {tb} (mode {self.mode})")
                 return self.ce(e[2], env, kj)
             return self.ce(e[1], env, ki)
@@ -378,7 +400,7 @@ class Lower:
         """does the syntax tree contain `?`, a monadic call, `unwrap`, a partial operation?"""
         if isinstance(x, tuple):
             if x and x[0] == "try": return True
-            if x and x[0] == "mcall" and x[2] in ("unwrap",): return True
+            if x and x[0] == "mcall" and x[2] in ("unwrap", "contains_seed", "expand_seed"): return True
             if x and x[0] == "bin" and x[1] == "-": return True
             if x and x[0] in ("call",) and x[1][-1] in ("Err", "Ok"): return True
             if x and x[0] == "call" and self.gen.done.get(x[1][-1]) == "P": return True
@@ -453,6 +475,8 @@ class Lower:
                 g = " || ".join(f"{c} == {v}" for v in sorted(self.gen.scheme.values()))
                 return f"if {g} then\n{k(c, 'SchemeType')}\nelse {self.panic()}"
             return self.ce(args[0], env, kf)
+        if segs[-2:] == ["Ciphertext", "from_members"] and len(args) == 8:
+            return self.args(args, env, lambda cs: k("(CtFlat.mk " + " ".join(c for c, _ in cs) + ")", "CtFlat"))
         if fn == "with_capacity" and segs[-2:] == ["Vec", "with_capacity"]:
             return self.ce(args[0], env, lambda c, t: k("[]", ["vec", None]))
         if self.mode == "P" and len(segs) <= 2 and (fn in EXTERN_P or self.gen.done.get(fn) == "P"):
@@ -471,6 +495,11 @@ class Lower:
             return self.cmap(recv[1], args[0], env, k)
         if m == "collect" and not args: return self.ce(recv, env, k)
         def kr(c, t):
+            if m == "serialized_size" and len(args) == 1 and args[0][0] == "path" and len(args[0][1]) == 1 \
+                    and env.get(args[0][1][0], (None, None))[1] == "HeContext":
+                if self.mode != "P": self.fail("context-dependent serialized_size outside a P function")
+                v = self.fresh()
+                return self.bind(f"{self.csize_fn(t, env[args[0][1][0]][0])} {c}", v, k(v, "usize"))
             if m == "serialized_size" and not args: return k(f"({self.ser_fn('serialized_size', t)} {c})", "usize")
             if m == "len" and not args and isinstance(t, (tuple, list)) and t[0] in ("vec", "arr"): return k(f"{c}.length", "usize")
             if m == "to_le_bytes" and not args and t in ("u64", "usize"): return k(f"(leBytes {self.gen.sizes[t]} {c})", ("bytes", None, self.gen.sizes[t]))
@@ -478,6 +507,14 @@ class Lower:
                 v = self.fresh()
                 return f"(match {c} with\n| some {v} => (\n{k(v, t[1])})\n| none => {self.panic()})"
             if m == "iter" and not args: return k(c, t)
+            if m == "unwrap_or" and len(args) == 1 and isinstance(t, tuple) and t[0] == "opt":
+                return self.ce(args[0], env, lambda cd, td: k(f"({c}.getD {cd})", t[1]))
+            if t == "CtFlat" and m == "contains_seed" and not args:
+                v = self.fresh()
+                return f"(match ctfContainsSeed {c} with\n| some {v} => (\n{k(v, 'bool')})\n| none => {self.panic()})"
+            if t == "CtFlat" and m == "expand_seed" and len(args) == 1 and self.ent.get("expand"):
+                v = self.fresh()
+                return self.ce(args[0], env, lambda cc, tc: f"(match ctfExpandSeed expand {cc} {c} with\n| some {v} => (\n{k(v, 'CtFlat')})\n| none => {self.panic()})")
             if (t, m, len(args)) in ACCESSORS:
                 rt, tpl = ACCESSORS[(t, m, len(args))]
                 return self.args(args, env, lambda cs: k(tpl.format(c, *[x for x, _ in cs]), self.ntp(rt)))
@@ -502,14 +539,14 @@ class Lower:
             res = {}
             def kb(cb, tb): res["t"] = tb; return self.pure(cb)
             outer = (self.mode, self.m)
-            if self.mode == "W": self.mode, self.m = "P", "p"        # the closure is a partial PURE computation; its failure is a panic of the writer
+            if self.mode in ("W", "R"): self.mode, self.m = "P", "p"        # the closure is a partial PURE computation; its failure is a panic
             try: inner = self.ce(body[1], env2, kb)
             finally: self.mode, self.m = outer
             if self.mode == "T": return k(f"(List.map (fun {self.lname(x)} => {inner}) {c})", ("vec", res["t"]))
-            if self.mode not in ("P", "W"): self.fail("`.map` with effects in a reader")
+            if self.mode not in ("P", "W", "R"): self.fail("`.map` with effects in a total function")
             v = self.fresh()
             call = f"pmapM (fun {self.lname(x)} =>\n{inner}) {c}"
-            return self.bind(call if self.mode == "P" else f"wlift ({call})", v, k(v, ("vec", res["t"])))
+            return self.bind(call if self.mode == "P" else f"{self.m}lift ({call})", v, k(v, ("vec", res["t"])))
         return self.ce(src, env, ks)
 
     # ---- monadic calls: returns a function taking k(monadic code, result type)
@@ -587,6 +624,27 @@ class Lower:
             return kend(env)
         s = stmts[0]; rest = lambda env2: self.cs(stmts[1:], tail, env2, kend, kval)
         tag = s[0]; ln = s[-1] if isinstance(s[-1], int) else None
+        if tag == "let" and isinstance(s[1], str) and s[4] is not None and s[4][0] == "ref" and s[4][1] and s[4][2][0] == "index" \
+                and s[4][2][1][0] == "path" and len(s[4][2][1][1]) == 1 and s[4][2][2][0] == "range":
+            # a mutable WINDOW `let w = &mut v[lo..hi];`: value semantics = copy out (bounds-checked), work on the copy, write back when the
+            # enclosing block ends (`w` is not used after it; `v` is not touched while `w` lives: the borrow checker guarantees both)
+            x = s[4][2][1][1][0]; rng = s[4][2][2]
+            if x not in env or rng[1] is None or rng[2] is None or rng[3]: self.fail("window form", ln)
+            if kend is None or self.mode != "R": self.fail("a mutable window outside a reader's loop / branch body", ln)
+            cx, tx_ = env[x]
+            if not (isinstance(tx_, tuple) and tx_[0] == "vec" and self.is_nat(tx_[1])): self.fail("window of a non-vector", ln)
+            w = self.lname(s[1]); self.nwin = getattr(self, "nwin", 0) + 1; lo_, hi_ = f"wlo{self.nwin}", f"whi{self.nwin}"
+            def klo(cl, tl):
+                def khi(ch, th):
+                    env2 = dict(env); env2[s[1]] = (w, tx_)
+                    def kend2(env3):
+                        env4 = dict(env3); env4.pop(s[1], None)
+                        return self.let(cx, f"{cx}.take {lo_} ++ {env3[s[1]][0]} ++ {cx}.drop {hi_}", kend(env4))
+                    body = self.cs(stmts[1:], tail, env2, kend2, kval)
+                    return self.let(lo_, cl, self.let(hi_, ch, f"if {lo_} ≤ {hi_} ∧ {hi_} ≤ {cx}.length then\n" +
+                                    self.let(w, f"({cx}.drop {lo_}).take ({hi_} - {lo_})", body) + f"\nelse {self.panic()}"))
+                return self.ce(rng[2], env, khi)
+            return self.ce(rng[1], env, klo)
         if tag == "let":
             _, pat, mut, ty, init, _ln = s
             if not isinstance(pat, str) or init is None: self.fail("`let` form", ln)
@@ -605,6 +663,13 @@ class Lower:
                     env2 = dict(env); env2[x] = (c0, t0)
                     return self.let(c0, MUTATORS[(t0, "data_mut=")][0].format(c0, c), rest(env2))
                 return self.ce(rhs, env, ka)
+            if lhs[0] == "index" and lhs[1][0] == "path" and len(lhs[1][1]) == 1 and lhs[1][1][0] in env and op is None and lhs[2][0] != "range":
+                x = lhs[1][1][0]; c0, t0 = env[x]
+                if not (isinstance(t0, tuple) and t0[0] == "vec" and self.is_nat(t0[1])): self.fail("indexed store into a non-vector", ln)
+                if self.mode == "T": self.fail("indexed store in a total function", ln)
+                # the index is evaluated, then the right-hand side, then the bounds check of the store
+                return self.ce(lhs[2], env, lambda ci, ti: self.ce(rhs, env, lambda c, t:
+                    f"if {ci} < {c0}.length then\n" + self.let(c0, f"{c0}.set {ci} {c}", rest(env)) + f"\nelse {self.panic()}"))
             if lhs[0] != "path" or len(lhs[1]) != 1 or lhs[1][0] not in env: self.fail("assignment target", ln)
             x = lhs[1][0]; c0, t0 = env[x]
             def ka(c, t):
@@ -702,7 +767,17 @@ class Lower:
     def assigned(self, x, acc):
         if isinstance(x, tuple):
             if x and x[0] == "assign" and x[1][0] == "path": acc.add(x[1][1][0])
+            if x and x[0] == "assign" and x[1][0] == "index" and x[1][1][0] == "path": acc.add(x[1][1][1][0])
             if x and x[0] == "mcall" and x[2] == "push" and x[1][0] == "path": acc.add(x[1][1][0])
+            if x and x[0] == "let" and isinstance(x[4], tuple) and x[4] and x[4][0] == "ref" and x[4][1] and x[4][2][0] == "index" and x[4][2][1][0] == "path":
+                acc.add(x[4][2][1][1][0])                               # `let w = &mut v[..]`: v is written back
+            if x and x[0] == "for":
+                it_ = x[2]
+                while it_[0] == "mcall" and it_[2] in ("enumerate", "chunks_mut", "iter_mut"): it_ = it_[1]
+                if x[2][0] == "mcall" and x[2][2] in ("enumerate", "iter_mut"):
+                    if it_[0] == "index": it_ = it_[1]
+                    if it_[0] == "path": acc.add(it_[1][0])              # `for .. in v.iter_mut()` / `v[a..b].iter_mut()` / `v.chunks_mut(n).enumerate()`
+                if x[2][0] == "ref" and x[2][1] and x[2][2][0] == "path": acc.add(x[2][2][1][0])
             for y in x: self.assigned(y, acc)
         elif isinstance(x, list):
             for y in x: self.assigned(y, acc)
@@ -718,11 +793,39 @@ class Lower:
 
     def cfor(self, s, env, rest):
         _, v, it, body, ln = s
+        if isinstance(v, tuple) and v[0] == "tuplepat" and len(v[1]) == 2 and it[0] == "mcall" and it[2] == "enumerate" and not it[3] \
+                and it[1][0] == "mcall" and it[1][2] == "chunks_mut" and len(it[1][3]) == 1 and it[1][1][0] == "path" and len(it[1][1][1]) == 1:
+            # `for (j, c) in p.chunks_mut(n).enumerate() { .. }`: the body may only change the chunk `c` (and read the stream)
+            if self.mode != "R": self.fail("chunks_mut loop outside a reader", ln)
+            jn, cn = v[1]; pv = it[1][1][1][0]; cp, tp = env[pv]
+            if not (isinstance(tp, tuple) and tp[0] == "vec" and self.is_nat(tp[1])): self.fail("chunks_mut of a non-vector", ln)
+            bad = [x for x in self.assigned(body, set()) if x in env]
+            if bad: self.fail(f"chunks_mut loop body assigns {bad}", ln)
+            def kn_(cnn, tnn):
+                env2 = dict(env); env2[jn] = (self.lname(jn), "usize"); env2[cn] = (self.lname(cn), tp)
+                inner = self.cblock(body, env2, lambda env3: self.pure(env3[cn][0]), None)
+                return f"if {cnn} = 0 then {self.panic()} else\n" + self.bind(
+                    f"rchunksM {cnn} (fun {self.lname(jn)} {self.lname(cn)} =>\n{inner}) {cp}.length 0 {cp}", cp, rest(env))
+            return self.ce(it[1][3][0], env, kn_)
         if not isinstance(v, str): self.fail("tuple pattern in `for`", ln)
         # fill form: `for x in &mut A { *x = E; }` / `for x in A.iter_mut() { *x = E; }`
         fill = None
         if it[0] == "ref" and it[1] and it[2][0] == "path": fill = it[2][1][0]
         if it[0] == "mcall" and it[2] == "iter_mut" and it[1][0] == "path": fill = it[1][1][0]
+        if it[0] == "mcall" and it[2] == "iter_mut" and it[1][0] == "index" and it[1][1][0] == "path" and it[1][2][0] == "range" \
+                and it[1][2][1] is not None and it[1][2][2] is not None and not it[1][2][3] and self.mode == "R":
+            # `for x in p[lo..hi].iter_mut() { *x = e; }`: fill a bounds-checked slice of p, write it back
+            st, tl = body; pv = it[1][1][1][0]; cp, tp = env[pv]
+            if not (len(st) == 1 and tl is None and st[0][0] == "assign" and st[0][1] == ("deref", ("path", [v])) and st[0][2] is None):
+                self.fail("`for x in p[a..b].iter_mut()` with a body other than `*x = e;`", ln)
+            if not (isinstance(tp, tuple) and tp[0] == "vec" and self.is_nat(tp[1])): self.fail("slice fill of a non-vector", ln)
+            env2 = dict(env); env2[v] = (self.lname(v), tp[1])
+            inner = self.ce(st[0][3], env2, lambda c, t: self.pure(c))
+            self.nwin = getattr(self, "nwin", 0) + 1; lo_, hi_ = f"wlo{self.nwin}", f"whi{self.nwin}"
+            return self.ce(it[1][2][1], env, lambda cl, tl_: self.ce(it[1][2][2], env, lambda ch, th_:
+                self.let(lo_, cl, self.let(hi_, ch, f"if {lo_} ≤ {hi_} ∧ {hi_} ≤ {cp}.length then\n" +
+                    self.bind(f"rfill (fun {self.lname(v)} =>\n{inner}) (({cp}.drop {lo_}).take ({hi_} - {lo_}))", "w_",
+                              self.let(cp, f"{cp}.take {lo_} ++ w_ ++ {cp}.drop {hi_}", rest(env))) + f"\nelse {self.panic()}"))))
         if fill is not None:
             st, tl = body
             if not (len(st) == 1 and tl is None and st[0][0] == "assign" and st[0][1] == ("deref", ("path", [v])) and st[0][2] is None):
@@ -765,9 +868,11 @@ class Lower:
             pats = "".join(f", {env[x][0]}" for x in state)
             text = f"{sig}\n  | []{pats} => {self.pure('(' + tup(env) + ')')}\n  | {hd} :: rest_{pats} =>\n{indent(bcode, 4)}"
             order = []                                      # the helper's own temporaries, renumbered by first occurrence (u1, u2, ..)
-            for m_ in re.finditer(r"\bt\d+\b", text):
+            for m_ in re.finditer(r"\b(?:t|wlo|whi)\d+\b", text):
                 if m_.group() not in order: order.append(m_.group())
-            text = re.sub(r"\bt\d+\b", lambda m_: "u%d" % (order.index(m_.group()) + 1), text)
+            pref = lambda nm: re.match(r"[a-z]+", nm).group()
+            num = lambda nm: [x for x in order if pref(x) == pref(nm)].index(nm) + 1
+            text = re.sub(r"\b(?:t|wlo|whi)\d+\b", lambda m_: ("u%d" if pref(m_.group()) == "t" else pref(m_.group()) + "_%d") % num(m_.group()), text)
             if text in self.loops: real = self.loops[text]          # the same loop again (duplicated continuation): one definition
             else:
                 self.nloop += 1; real = f"{self.name}_loop{self.nloop}"; self.loops[text] = real
@@ -804,6 +909,7 @@ class Lower:
         if self.mode in ("W", "R"):
             if ret[0] != "result": self.fail("a stream function must return Result<..>")
             rt = self.rty(ret[1])
+            if self.mode == "R" and rt == "Ciphertext": rt = "CtFlat"          # readers BUILD a ciphertext: `from_members`
         else: rt = self.rty(ret)
         body = self.cs(list(fn["body"][0]), fn["body"][1], env, None, "TAIL")
         doc = f"/-- `{self.ent['where']}`  {fn['file']}:{fn['line0']}-{fn['line1']}  sha256/64(normalised source) = {fn['hash']} -/"
@@ -863,6 +969,44 @@ def rfill (f : Nat → Rd Nat) : List Nat → Rd (List Nat)
   | [] => rpure []
   | x :: xs => rbind (f x) fun v => rbind (rfill f xs) fun vs => rpure (v :: vs)
 
+/-- `for (j, c) in v.chunks_mut(n).enumerate() { c := f j c }` (n > 0; the last chunk may be shorter); fuel = the number of elements -/
+def rchunksM (n : Nat) (f : Nat → List Nat → Rd (List Nat)) : Nat → Nat → List Nat → Rd (List Nat)
+  | 0, _, _ => rpure []
+  | fuel + 1, j, v =>
+    if v.isEmpty then rpure []
+    else rbind (f j (v.take n)) fun c => rbind (rchunksM n f fuel (j + 1) (v.drop n)) fun r => rpure (c ++ r)
+
+/-- a partial pure computation inside a reader: its failure is a panic -/
+def rlift {α : Type} (r : R α) : Rd α := fun bs =>
+  match r with
+  | .ok a => .ok (a, bs)
+  | .error _ => .error .bad
+
+/-- what `Ciphertext::from_members(size, coeff_modulus_size, poly_modulus_degree, data, parms_id, scale, correction_factor, is_ntt_form)` builds -/
+structure CtFlat where
+  size : Nat
+  k : Nat
+  n : Nat
+  data : List Nat
+  pid : List Nat
+  scale : Nat
+  cf : Nat
+  ntt : Bool
+  deriving DecidableEq, Repr
+
+/-- TRUSTED reading of `impl ExpandSeed for Ciphertext :: contains_seed` (src/text.rs): `size != HE_CIPHERTEXT_SIZE_MIN` ⇒ false, else
+    `self.poly(1)[0] == CIPHERTEXT_SEED_FLAG` with `poly(1) = &data[d..2d]`, `d = k·n` (`none` = the slice / the index panics) -/
+def ctfContainsSeed (c : CtFlat) : Option Bool :=
+  if c.size != HC.Gen.HE_CIPHERTEXT_SIZE_MIN then some false
+  else if 2 * (c.k * c.n) ≤ c.data.length ∧ 0 < c.k * c.n then some (c.data.getD (c.k * c.n) 0 == seedFlag) else none
+
+/-- TRUSTED reading of `expand_seed` (src/text.rs): panics unless `contains_seed()`; the 64 seed bytes are the 8 words after the flag word;
+    `rlwe::sample::uniform(prng(seed), level parameters, poly_mut(1))` overwrites polynomial 1 — the model's abstract `expand seed level` -/
+def ctfExpandSeed (expand : List Nat → Level → List Nat) (ctx : Ctx) (c : CtFlat) : Option CtFlat :=
+  match ctfContainsSeed c, ctx.find c.pid with
+  | some true, some lv => some { c with data := c.data.take (c.k * c.n) ++ expand ((c.data.drop (c.k * c.n + 1)).take seedWords) lv }
+  | _, _ => none
+
 /-- partial arithmetic (`a - b`, `v[i]`): `R = Except Err` of Model/Word.lean -/
 def ppure {α : Type} (a : α) : R α := .ok a
 def pbind {α β : Type} (m : R α) (f : α → R β) : R β := match m with | .ok a => f a | .error e => .error e
@@ -893,6 +1037,10 @@ class Gen:
         self.done = {}; self.rets = {}; self.Parser = make_parser(T)
         self.src = T.strip_comments(open(os.path.join(self.repo, SR)).read())
         self.read_enums(); self.read_sizes(); self.check_setters()
+        tx = T.strip_comments(open(os.path.join(self.repo, "src/text.rs")).read())
+        m = re.search(r"\bconst\s+CIPHERTEXT_SEED_FLAG\s*:\s*u64\s*=\s*(0x[0-9A-Fa-f_]+|[0-9_]+)\s*;", tx)
+        self.need(m, "const CIPHERTEXT_SEED_FLAG not found in src/text.rs")
+        self.seed_flag = int(m.group(1).replace("_", ""), 0)
 
     def need(self, cond, what):
         if not cond: raise self.T.Unsupported(f"stream mode: {what}")
@@ -1016,6 +1164,7 @@ TABLE = (
     + impl_entries("EncryptionParameters", "Serializable for EncryptionParameters", "params")
     + impl_entries("ParmsID", "Serializable for ParmsID", "pid")
     + impl_entries("Plaintext", "Serializable for Plaintext", "plain")
+    + impl_entries("SecretKey", "Serializable for SecretKey", "sk")
     + [{"fn": "get_u64_limit", "mode": "P", "lean": "get_u64_limit", "where": "fn get_u64_limit"},
        {"fn": "write_u64_limited", "mode": "W", "lean": "write_u64_limited", "where": "fn write_u64_limited"},
        {"fn": "read_u64_limited", "mode": "R", "lean": "read_u64_limited", "where": "fn read_u64_limited"},
@@ -1026,9 +1175,16 @@ TABLE = (
        {"fn": "serialize", "impl": "SerializableWithHeContext for KSwitchKeys", "selfty": "KSwitchKeys", "mode": "W", "lean": "kswitch_serialize", "where": "impl SerializableWithHeContext for KSwitchKeys :: serialize", "ctx_first": True},
        {"fn": "serialize", "impl": "SerializableWithHeContext for RelinKeys", "selfty": "RelinKeys", "mode": "W", "lean": "relin_serialize", "where": "impl SerializableWithHeContext for RelinKeys :: serialize", "ctx_first": True},
        {"fn": "serialize", "impl": "SerializableWithHeContext for GaloisKeys", "selfty": "GaloisKeys", "mode": "W", "lean": "galois_serialize", "where": "impl SerializableWithHeContext for GaloisKeys :: serialize", "ctx_first": True},
+       {"fn": "deserialize_full", "impl": "Ciphertext", "selfty": "Ciphertext", "mode": "R", "lean": "ct_deserialize_full", "where": "impl Ciphertext :: deserialize_full", "ctx_first": True, "expand": True},
+       {"fn": "deserialize", "impl": "SerializableWithHeContext for Ciphertext", "selfty": "Ciphertext", "mode": "R", "lean": "ct_deserialize", "where": "impl SerializableWithHeContext for Ciphertext :: deserialize", "ctx_first": True, "expand": True},
        {"fn": "serialized_full_size", "impl": "Ciphertext", "selfty": "Ciphertext", "mode": "P", "lean": "ct_serialized_full_size", "where": "impl Ciphertext :: serialized_full_size", "ctx_first": True},
        {"fn": "serialized_size", "impl": "SerializableWithHeContext for Ciphertext", "selfty": "Ciphertext", "mode": "P", "lean": "ct_serialized_size", "where": "impl SerializableWithHeContext for Ciphertext :: serialized_size", "ctx_first": True},
-       {"fn": "serialized_terms_size", "impl": "Ciphertext", "selfty": "Ciphertext", "mode": "P", "lean": "ct_serialized_terms_size", "where": "impl Ciphertext :: serialized_terms_size", "ctx_first": True}]
+       {"fn": "serialized_terms_size", "impl": "Ciphertext", "selfty": "Ciphertext", "mode": "P", "lean": "ct_serialized_terms_size", "where": "impl Ciphertext :: serialized_terms_size", "ctx_first": True},
+       {"fn": "serialized_size", "impl": "SerializableWithHeContext for PublicKey", "selfty": "PublicKey", "mode": "P", "lean": "pk_serialized_size", "where": "impl SerializableWithHeContext for PublicKey :: serialized_size", "ctx_first": True},
+       {"fn": "serialized_size", "impl": "SerializableWithHeContext for Vec<I>", "selfty": ("vec", "I"), "generic": True, "mode": "P", "lean": "cvec_serialized_size", "where": "impl SerializableWithHeContext for Vec<I> :: serialized_size", "drop_ctx": True},
+       {"fn": "serialized_size", "impl": "SerializableWithHeContext for KSwitchKeys", "selfty": "KSwitchKeys", "mode": "P", "lean": "kswitch_serialized_size", "where": "impl SerializableWithHeContext for KSwitchKeys :: serialized_size", "ctx_first": True},
+       {"fn": "serialized_size", "impl": "SerializableWithHeContext for RelinKeys", "selfty": "RelinKeys", "mode": "P", "lean": "relin_serialized_size", "where": "impl SerializableWithHeContext for RelinKeys :: serialized_size", "ctx_first": True},
+       {"fn": "serialized_size", "impl": "SerializableWithHeContext for GaloisKeys", "selfty": "GaloisKeys", "mode": "P", "lean": "galois_serialized_size", "where": "impl SerializableWithHeContext for GaloisKeys :: serialized_size", "ctx_first": True}]
 )
 
 
